@@ -17,4 +17,19 @@ MCSeeds == [base \in MCBases |->
        <<8,0,0,0,0,0,0,15,12,0>>, <<15,14,13,12,11,10,9,8,7,6>>,
        <<0,0,9,15,15,15,15,15,12,0>> }]
 MCSteps == [base \in MCBases |-> IF base = 2 THEN 1023 ELSE 128]
+\* magnitudes 10^e: next to the ranges (10^3, 10^9, 10^12), beyond 2^63,
+\* around the largest double (309 digits) and far beyond it
+MCExps == {1, 2, 3, 6, 9, 12, 15, 19, 22, 100, 300, 306, 307, 308, 309, 310, 400}
+
+ASSUME ScaleExamples ==
+   /\ Scale(<<5, 1, 1>>, 2) = <<5, 1, 1, 0, 0>>
+   /\ DecLess(<<5, 1, 1>>, <<5, 1, 2>>) /\ ~DecLess(<<5, 1, 2>>, <<5, 1, 2>>)
+   /\ DecLess(<<9, 9>>, <<1, 0, 0>>)
+   /\ InRange(2, <<TRUE, <<5, 1, 2>>>>) /\ ~InRange(2, <<FALSE, <<5, 1, 2>>>>)
+   /\ ~InRange(2, <<TRUE, <<5, 1, 3>>>>)
+   /\ InRange(8, <<FALSE, <<5, 1, 2>>>>)
+   /\ ~InRange(16, <<FALSE, Scale(<<1>>, 12)>>) /\ InRange(16, <<FALSE, Scale(<<5>>, 11)>>)
+   /\ ~BeyondDouble(Scale(<<1>>, 308)) /\ BeyondDouble(Scale(<<1>>, 309))
+   /\ NumeralTooLong(<<0,0,0,0,0,0,0,1,0,1>>, 9) /\ ~NumeralTooLong(<<0,0,0,0,0,0,0,1,0,1>>, 6)
+   /\ ~NumeralTooLong(Z, 400)
 ====
